@@ -211,14 +211,29 @@ def gross_witness(got, spec, need=2, rel=1e-2):
         for _ in ins:
             state = (state * 1103515245 + 12345) & 0x7fffffff
             combo.append(_GW_VALUES[(state >> 16) % len(_GW_VALUES)])
-        env = {x: CE.f2b(x.w, v) for x, v in zip(ins, combo)}
+        def ev(vals):
+            env = {x: CE.f2b(x.w, v) for x, v in zip(ins, vals)}
+            a_, b_ = CE.b2f(got.w, CE.evaluate(got, env)), CE.b2f(spec.w, CE.evaluate(spec, env))
+            if a_ != a_ or b_ != b_ or abs(a_) == float('inf') or abs(b_) == float('inf'):
+                raise ValueError('not finite')
+            return a_, b_
         try:
-            a, b = CE.b2f(got.w, CE.evaluate(got, env)), CE.b2f(spec.w, CE.evaluate(spec, env))
+            a, b = ev(combo)
         except Exception:
             continue
-        if a != a or b != b or abs(a) == float('inf') or abs(b) == float('inf'):
-            continue
         if abs(a - b) > rel * max(1.0, abs(a), abs(b)):
+            # the point must be well conditioned for both terms: a tiny relative perturbation of every input (far above rounding, far below the claimed difference)
+            # may move neither value by more than a tenth of the tolerance - a point where a cancellation is normalised or divided by (a singular matrix handed to a
+            # factorisation, a zero-length vector) amplifies rounding noise to order one and proves nothing
+            dl = 2.0 ** (-12 if min(x.w for x in ins) == 32 else -24)
+            pert = [(v * (1 + dl * (1 if i % 2 else -1))) if v != 0 else dl * (1 if i % 2 else -1) for i, v in enumerate(combo)]
+            try:
+                a2, b2 = ev(pert)
+            except Exception:
+                continue
+            tol = 0.1 * rel * max(1.0, abs(a), abs(b))
+            if abs(a2 - a) > tol or abs(b2 - b) > tol:
+                continue
             found.append('at %s: got %r, definition %r' % (', '.join('%s = %r' % (tm.show(x), v) for x, v in zip(ins, combo)), a, b))
             if len(found) >= need:
                 return ' ; '.join(found)
